@@ -37,6 +37,20 @@ type tvar struct {
 	// not known to the harness (type variable, column of an undeclared or recursive predicate, result of
 	// a meet), so it is used only where no meet is computed: head, negated atoms, !=.
 	locked bool
+	// narrowed: the flowing type was deliberately made one step too narrow (an alternative forgotten), so
+	// the variable does NOT have "exactly" its flowing type: never a key of a constructed map while all
+	// map types of the case share one key type (K07b).
+	narrowed bool
+	// origin: index of the body literal that bound the variable.
+	origin int
+	// src: the column of a declared extensional predicate whose atom bound the variable (nil otherwise).
+	src *colSrc
+}
+
+type colSrc struct {
+	pred string
+	col  int
+	rows [][]Ty
 }
 
 type pinfo struct {
@@ -57,6 +71,8 @@ type progGen struct {
 	p      prog.Program
 	extra  []prog.Atom
 	k51    bool // exclusion K51-meet-underapproximates active
+	// the unions of leaf types drawn so far as column types: later ones are derived from them
+	leafUnions []Ty
 }
 
 func (g *progGen) label(l string) { g.labels[l] = true }
@@ -70,7 +86,17 @@ func (g *progGen) intn(label string, n int) int { return rapid.IntRange(0, n-1).
 func (g *progGen) colTy() Ty {
 	d := []int{0, 0, 0, 1, 1, 1, 1, 2, 2}[g.intn("depth", 9)]
 	var ty Ty
-	if g.s.taggedCase && (!g.s.fixLabels || g.s.fixTagged || hasLabel(g.s.labels, tagField)) && chance(g.t, "tagged-column", 12) {
+	share := 25
+	if len(g.leafUnions) > 0 {
+		share = 50 // such unions come in groups: one alone meets nothing
+	}
+	if chance(g.t, "leaf-union-column", share) {
+		// a union of two or three leaf types that shares alternatives with the other such unions of the case
+		u := genLeafUnion(g.t, g.leafUnions)
+		g.leafUnions = append(g.leafUnions, u)
+		ty = reflavour(g.t, u)
+		g.label("ty:leaf-union")
+	} else if g.s.taggedCase && (!g.s.fixLabels || g.s.fixTagged || hasLabel(g.s.labels, tagField)) && chance(g.t, "tagged-column", 12) {
 		ty = g.s.genTagged(g.t)
 	} else {
 		ty = g.s.genTy(g.t, d)
@@ -580,12 +606,14 @@ type ruleGen struct {
 	body  []prog.Lit
 	lets  []prog.LetStmt
 	nvar  int
+	// equated: the variables of the steps X = Y (their types were refined last; the head prefers them)
+	equated []string
 }
 
 func (r *ruleGen) fresh(ty Ty) string {
 	r.nvar++
 	name := fmt.Sprintf("V%d", r.nvar)
-	r.env = append(r.env, tvar{name: name, ty: ty})
+	r.env = append(r.env, tvar{name: name, ty: ty, origin: len(r.body)})
 	return name
 }
 
@@ -604,6 +632,14 @@ func (r *ruleGen) setTy(name string, ty Ty) {
 	for i := range r.env {
 		if r.env[i].name == name {
 			r.env[i].ty = ty
+		}
+	}
+}
+
+func (r *ruleGen) markNarrowed(name string) {
+	for i := range r.env {
+		if r.env[i].name == name {
+			r.env[i].narrowed = true
 		}
 	}
 }
@@ -866,7 +902,10 @@ func (r *ruleGen) atomArgs(p pinfo) []prog.Term {
 		same := r.varsOfKey(col.key())
 		fresh := func() {
 			r.nvar++
-			v := tvar{name: fmt.Sprintf("V%d", r.nvar), ty: col, locked: p.noJoin}
+			v := tvar{name: fmt.Sprintf("V%d", r.nvar), ty: col, locked: p.noJoin, origin: len(r.body)}
+			if p.level < 0 && p.declared && p.rows != nil {
+				v.src = &colSrc{pred: p.name, col: i, rows: p.rows}
+			}
 			if p.rows != nil {
 				seen := map[string]bool{}
 				for _, row := range p.rows {
@@ -1018,7 +1057,17 @@ func (r *ruleGen) construct() (prog.Term, Ty, bool) {
 		if g.s.fixKey {
 			// keys of exactly the case's key type only
 			var ok bool
-			if k, tk, ok = r.operandOf(g.s.mapKey.key()); !ok || rapid.IntRange(0, 2).Draw(t, "const-key") == 0 {
+			var exact []tvar
+			for _, v := range r.varsOfKey(g.s.mapKey.key()) {
+				if !v.narrowed {
+					exact = append(exact, v)
+				}
+			}
+			if ok = len(exact) > 0; ok {
+				v := exact[g.intn("operand-of", len(exact))]
+				k, tk = prog.Var(v.name), v.ty
+			}
+			if !ok || rapid.IntRange(0, 2).Draw(t, "const-key") == 0 {
 				if g.s.mapKey.K == "any" {
 					return prog.Term{}, Ty{}, false
 				}
@@ -1303,6 +1352,15 @@ func (r *ruleGen) step() {
 			}
 			r.body = append(r.body, prog.NeqLit(prog.Var(v.name), rhs))
 		})
+		if pairs := r.eqPairs(); len(pairs) > 0 {
+			weight := 3
+			for _, p := range pairs {
+				if p.class == "unions-partial-overlap" {
+					weight = 20
+				}
+			}
+			add("X=Y", weight, func() { r.equate(pairs) })
+		}
 		add("=const", 1, func() {
 			live := r.live()
 			if len(live) == 0 {
@@ -1379,6 +1437,7 @@ func (r *ruleGen) step() {
 							if overNarrow && (a.K == "name" || a.K == "prefix" && below(p, a.Name)) {
 								gone = true
 								g.label("negated-match_prefix-over-narrowed")
+								r.markNarrowed(v.name)
 							}
 							if !gone {
 								rest = append(rest, a)
@@ -1407,6 +1466,210 @@ func (r *ruleGen) step() {
 	c.run()
 }
 
+// eqPair is a pair of bound variables that may be equated, with the meet of their flowing types.
+type eqPair struct {
+	x, y  tvar
+	meet  Ty
+	known bool   // meet is the harness-side meet (else the flowing types stay as they are)
+	class string // identical-types, one-is-any, one-conforms, unions-partial-overlap, leaf-partial-overlap, meet-unknown
+}
+
+// eqPairs lists the pairs of distinct bound variables for the step X = Y, preferably bound by different
+// literals. The checker types both variables by the meet of their types (inferState.addOrRefine on both
+// sides). While K51 is active only pairs whose state types meet exactly (see exactMeet) and whose flowing
+// types have a common member are offered.
+func (r *ruleGen) eqPairs() []eqPair {
+	vs := r.live()
+	var different, same []eqPair
+	for i := range vs {
+		for j := i + 1; j < len(vs); j++ {
+			x, y := vs[i], vs[j]
+			if x.name == y.name {
+				continue
+			}
+			m, ok := meetTy(x.ty, y.ty)
+			if x.origin == y.origin && (len(cands(x)) > 1 || len(cands(y)) > 1) {
+				// one atom of a predicate with several bound rows: the checker meets the two columns row by
+				// row, the meet of the joined column types says nothing about that
+				ok = false
+			}
+			if r.g.k51 {
+				exact := ok
+				for _, g := range cands(x) {
+					for _, h := range cands(y) {
+						exact = exact && exactMeet(g, h)
+					}
+				}
+				if !exact {
+					r.g.touch()
+					continue
+				}
+			}
+			p := eqPair{x: x, y: y, meet: m, known: ok}
+			switch {
+			case !ok:
+				p.class = "meet-unknown"
+			case x.ty.key() == y.ty.key():
+				p.class = "identical-types"
+			case x.ty.K == "any" || y.ty.K == "any":
+				p.class = "one-is-any"
+			case sameAlts(m, x.ty) || sameAlts(m, y.ty):
+				p.class = "one-conforms"
+			case x.ty.K == "union" && y.ty.K == "union":
+				p.class = "unions-partial-overlap"
+			default:
+				p.class = "leaf-partial-overlap"
+			}
+			if x.origin != y.origin {
+				different = append(different, p)
+			} else {
+				same = append(same, p)
+			}
+		}
+	}
+	if len(different) > 0 {
+		return different
+	}
+	return same
+}
+
+// equate adds X = Y (either order) for one of the pairs; both variables then have the meet as their
+// flowing type. If both were bound by atoms of declared extensional predicates, mostly a pair of base
+// facts with a common value (a member of the meet of two of their rows) is pre-loaded.
+func (r *ruleGen) equate(pairs []eqPair) {
+	g := r.g
+	t := g.t
+	var partial []eqPair
+	for _, p := range pairs {
+		if p.class == "unions-partial-overlap" {
+			partial = append(partial, p)
+		}
+	}
+	if len(partial) > 0 && !chance(t, "any-pair", 30) {
+		pairs = partial
+	}
+	p := pairs[g.intn("eqpair", len(pairs))]
+	a, b := p.x.name, p.y.name
+	if rapid.Bool().Draw(t, "flip") {
+		a, b = b, a
+	}
+	r.body = append(r.body, prog.EqLit(prog.Var(a), prog.Var(b)))
+	g.label("eqvars:" + p.class)
+	var lost *Ty // the alternative of the meet that the flowing type forgets (over-narrowed)
+	if p.x.origin != p.y.origin {
+		g.label("eqvars:bound-by-different-literals")
+	} else {
+		g.label("eqvars:bound-by-one-literal")
+	}
+	if p.known {
+		r.setTy(a, p.meet)
+		r.setTy(b, p.meet)
+		if p.class == "unions-partial-overlap" {
+			for _, x := range alternatives(p.x.ty) {
+				for _, y := range alternatives(p.y.ty) {
+					if x.key() != y.key() && (leafConforms(x, y) || leafConforms(y, x)) && p.meet.K == "union" {
+						g.label("eqvars:partial-overlap-alternative-below-alternative")
+					}
+				}
+			}
+		}
+		// sometimes (one step too narrow, must be rejected) one alternative of the meet is forgotten
+		if p.meet.K == "union" && chance(t, "over-narrow", 40) {
+			rest := append([]Ty{}, p.meet.Args...)
+			i := g.intn("forget", len(rest))
+			lost = &p.meet.Args[i]
+			rest = append(rest[:i], rest[i+1:]...)
+			narrowed := rest[0]
+			if len(rest) > 1 {
+				narrowed = tyUnion(rest...)
+			}
+			r.setTy(a, narrowed)
+			r.setTy(b, narrowed)
+			r.markNarrowed(a)
+			r.markNarrowed(b)
+			g.label("eqvars:over-narrowed")
+		}
+	}
+	r.equated = append(r.equated, a, b)
+	identical := p.known
+	for _, gx := range cands(p.x) {
+		for _, gy := range cands(p.y) {
+			identical = identical && gx.key() == gy.key()
+		}
+	}
+	if !identical {
+		// from now on the checker's types of both are results of a meet
+		r.lock(a)
+		r.lock(b)
+	}
+	if p.x.src == nil || p.y.src == nil || !chance(t, "common-value", 85) {
+		return
+	}
+	type rowPair struct {
+		rx, ry []Ty
+		m      Ty
+	}
+	var rps []rowPair
+	for _, rx := range p.x.src.rows {
+		for _, ry := range p.y.src.rows {
+			m, ok := meetTy(rx[p.x.src.col], ry[p.y.src.col])
+			if ok && lost != nil {
+				// a value of the forgotten alternative: only such a value can tell
+				m, ok = meetTy(m, *lost)
+			}
+			if ok {
+				rps = append(rps, rowPair{rx, ry, m})
+			}
+		}
+	}
+	if len(rps) == 0 {
+		return
+	}
+	rp := rps[g.intn("rowpair", len(rps))]
+	c := constTerm(genMember(t, rp.m))
+	fx := g.memberFact(p.x.src.pred, rp.rx)
+	fx.Args[p.x.src.col] = c
+	fy := g.memberFact(p.y.src.pred, rp.ry)
+	fy.Args[p.y.src.col] = c
+	g.extra = append(g.extra, fx, fy)
+	g.label("eqvars:common-value-facts")
+}
+
+// overlaps: some column of q is a union of leaves that has common members with the union type of a bound
+// variable while neither contains the other.
+func (r *ruleGen) overlaps(q pinfo) bool {
+	if q.noJoin {
+		return false
+	}
+	for _, col := range q.cols {
+		for _, v := range r.env {
+			if v.ty.K != "union" || col.K != "union" || v.locked {
+				continue
+			}
+			if m, ok := meetTy(v.ty, col); ok && !sameAlts(m, v.ty) && !sameAlts(m, col) {
+				return true
+			}
+		}
+	}
+	return false
+}
+
+// sameAlts: the two types have the same set of alternatives.
+func sameAlts(a, b Ty) bool {
+	ka := map[string]bool{}
+	for _, x := range alternatives(a) {
+		ka[x.key()] = true
+	}
+	n := 0
+	for _, y := range alternatives(b) {
+		if !ka[y.key()] {
+			return false
+		}
+		n++
+	}
+	return n >= len(ka)
+}
+
 func nameish(ty Ty) bool {
 	switch ty.K {
 	case "name", "prefix", "singleton", "any":
@@ -1428,14 +1691,44 @@ func (r *ruleGen) gen(name string, arity int) (prog.Rule, []Ty) {
 	t := g.t
 	preds := r.available(false)
 	natoms := []int{1, 1, 2}[g.intn("natoms", 3)]
+	if len(g.leafUnions) >= 2 && natoms == 1 && rapid.Bool().Draw(t, "second-atom") {
+		natoms = 2 // two columns typed by overlapping unions: something to equate
+	}
 	for i := 0; i < natoms; i++ {
 		p := preds[g.intn("pred", len(preds))]
+		if i > 0 && rapid.IntRange(0, 9).Draw(t, "overlapping-pred") < 7 {
+			// prefer a predicate with a column whose union type overlaps the type of a bound variable
+			// without being comparable to it: something for the step X = Y
+			var over []pinfo
+			for _, q := range preds {
+				if r.overlaps(q) {
+					over = append(over, q)
+				}
+			}
+			if len(over) > 0 {
+				p = over[g.intn("overpred", len(over))]
+			}
+		}
 		if r.self != nil && i == 0 {
 			p = *r.self
 		}
 		r.body = append(r.body, prog.PosLit(prog.Atom{Pred: p.name, Args: r.atomArgs(p)}))
 	}
 	nsteps := []int{0, 1, 1, 2, 2, 3}[g.intn("nsteps", 6)]
+	// two bound variables typed by unions that overlap without being comparable: mostly equated first
+	var partial []eqPair
+	for _, p := range r.eqPairs() {
+		if p.class == "unions-partial-overlap" {
+			partial = append(partial, p)
+		}
+	}
+	if len(partial) > 0 && rapid.IntRange(0, 9).Draw(t, "equate-first") < 7 {
+		g.label("step:X=Y")
+		r.equate(partial)
+		if nsteps > 0 {
+			nsteps--
+		}
+	}
 	for i := 0; i < nsteps; i++ {
 		r.step()
 	}
@@ -1455,6 +1748,14 @@ func (r *ruleGen) gen(name string, arity int) (prog.Rule, []Ty) {
 			a := g.intn("hv1", len(r.env))
 			if b := g.intn("hv2", len(r.env)); b > a {
 				a = b
+			}
+			if len(r.equated) > 0 && rapid.Bool().Draw(t, "project-equated") {
+				name := r.equated[g.intn("equated", len(r.equated))]
+				for i := range r.env {
+					if r.env[i].name == name {
+						a = i
+					}
+				}
 			}
 			head.Args = append(head.Args, prog.Var(r.env[a].name))
 			if r.env[a].opaque && !chance(t, "bound-for-opaque", 25) {
